@@ -1,6 +1,6 @@
 (* Properties_C09.v — key lifetime (C09).  Statements only; proofs are in KeyLimitProofs.v. *)
 From Coq Require Import ZArith List Bool.
-From Srtp Require Import Util Constants KeyLimit KeyLimitProofs.
+From Srtp Require Import Util Constants KeyLimit KeyLimitProofs Rdb Rdbx Icm World Stream Rtp LimitProofs.
 Import ListNotations.
 Local Open Scope Z_scope.
 
@@ -43,3 +43,53 @@ Example budget_events_example :
   snd (kl_updates 3 {| num_left := 2 ^ 16 + 1; kst := KNormal |}) = [EvNormal; EvSoft; EvSoft]
   /\ snd (kl_updates 3 {| num_left := 2; kst := KPastSoft |}) = [EvSoft; EvHard; EvHard].
 Proof. vm_compute. split; reflexivity. Qed.
+
+(* ---- at the session level (statements as printed by Coq's Check; proofs in LimitProofs.v) ---- *)
+(* a packet call on an explicit stream charges exactly that stream's key i by one kl_update; nothing else in the
+   session, heap or buffers changes; soft => the call goes on with the soft-limit event, hard => key_expired + hard-limit event *)
+Theorem charge_explicit_stream :
+  forall (x i : Z) (w : world) (st : stream) (k : klimit),
+       list_get (ss_list (w_s w)) x = Some st ->
+       s_clone st = false ->
+       nth_error (s_limits st) (zn i) = Some k ->
+       let st' := set_limits st (replace_nth (zn i) (s_limits st) (fst (kl_update k))) in
+       let s' :=
+         {|
+           ss_template := ss_template (w_s w);
+           ss_list := list_replace (ss_list (w_s w)) x st';
+           ss_cap := ss_cap (w_s w)
+         |} in
+       let
+       '(w', res) := charge_key (RList x) i w in
+        w_s w' = s' /\
+        w_h w' = w_h w /\
+        w_b w' = w_b w /\
+        match snd (kl_update k) with
+        | EvNormal => res = inl tt /\ w_ev w' = w_ev w
+        | EvSoft => res = inl tt /\ w_ev w' = w_ev w ++ [(event_key_soft_limit_c, x)]
+        | EvHard => res = inr st_key_expired /\ w_ev w' = w_ev w ++ [(event_key_hard_limit_c, x)]
+        end.
+Proof. exact charge_key_explicit. Qed.
+Print Assumptions charge_explicit_stream.
+
+(* a stream cloned from the wildcard template charges the TEMPLATE's budget: all streams sharing the wildcard key
+   see one remaining budget and expire together *)
+Theorem charge_cloned_stream :
+  forall (x i : Z) (w : world) (st t : stream) (k : klimit),
+       list_get (ss_list (w_s w)) x = Some st ->
+       s_clone st = true ->
+       ss_template (w_s w) = Some t ->
+       nth_error (s_limits t) (zn i) = Some k ->
+       let t' := set_limits t (replace_nth (zn i) (s_limits t) (fst (kl_update k))) in
+       let
+       '(w', res) := charge_key (RList x) i w in
+        ss_template (w_s w') = Some t' /\
+        ss_list (w_s w') = ss_list (w_s w) /\
+        w_h w' = w_h w /\
+        match snd (kl_update k) with
+        | EvNormal => res = inl tt
+        | EvSoft => res = inl tt /\ w_ev w' = w_ev w ++ [(event_key_soft_limit_c, x)]
+        | EvHard => res = inr st_key_expired /\ w_ev w' = w_ev w ++ [(event_key_hard_limit_c, x)]
+        end.
+Proof. exact charge_key_clone. Qed.
+Print Assumptions charge_cloned_stream.
